@@ -102,6 +102,7 @@ func obsSatisfies(e string, allowed []string) (o Obs) {
 		}
 		o.Mutated = !sameStrings(backing, pristine)
 	}()
+	defer journal("Satisfies", e, arg)()
 	sat, err := spdxexp.Satisfies(e, arg)
 	o.Sat = sat
 	if err != nil {
@@ -129,6 +130,7 @@ func obsSatisfiesReuse(e string, allowed []string) (o Obs) {
 		}
 		o.Mutated = !sameStrings(buf, allowed) || reuseBuf[len(allowed)] != "\x00sentinel"
 	}()
+	defer journal("Satisfies", e, buf)()
 	sat, err := spdxexp.Satisfies(e, buf)
 	o.Sat = sat
 	if err != nil {
@@ -147,6 +149,8 @@ func obsValidate(list []string) (o Obs) {
 		}
 		o.Mutated = !sameStrings(backing, pristine)
 	}()
+	done := journal("ValidateLicenses", "", arg)
+	defer done()
 	ok, bad := spdxexp.ValidateLicenses(arg)
 	o.OK = ok
 	o.Invalid = append([]string{}, bad...)
@@ -162,6 +166,8 @@ func obsExtract(e string) (o Obs) {
 			o.Panic = fmt.Sprint(r)
 		}
 	}()
+	done := journal("ExtractLicenses", e, nil)
+	defer done()
 	out, err := spdxexp.ExtractLicenses(e)
 	o.OutNil = out == nil
 	o.Out = append([]string{}, out...)
